@@ -76,6 +76,11 @@ def run(chk):
         out = run_vw(vw, ["record", chk.seed * 1000 + s, 10 if quick else 24, 300 if quick else 1200, p, faults])
         jobs.append((p, json.loads(out.strip().split("\n")[-1])["summary"]))
 
+    # the whole 256-colour palette and the direct codes, 16 per run (faults argument 2 = palette runs)
+    p = os.path.join(wd, "lc-pal.ndjson")
+    out = run_vw(vw, ["record", chk.seed, 17, 300, p, 2])
+    jobs.append((p, json.loads(out.strip().split("\n")[-1])["summary"]))
+
     def val(j):
         ok, rej, res = vlib.tlc_trace(j[0], "Trace_WinconStream", "c18-" + os.path.basename(j[0]), consts=flags, timeout=3000)
         return j, ok, rej, res
